@@ -39,14 +39,23 @@ def history(cfg, mode, sizes=('c5000', 'c9000'), pre=(), order='AB', fc=None, hy
         steps.append([fp('B', sizes[0], '/B.;1')])
     if mode == 'efimac':
         steps.append([fp('C', sizes[1], '/C.;1')])
+    if mode in ('bios2', 'efibios2'):
+        # a second x86 boot image whose file sorts after the first: the MBR must keep pointing at the initial entry's file
+        steps.append([fp('Z', 'c4097', '/Z.;1')])
+    if mode == 'efibios2':
+        steps.append([fp('B', sizes[0], '/B.;1')])
     steps.append([['add_eltorito', {'bootfile_path': '/A.;1', 'boot_load_size': 4}]])
+    if mode == 'efibios2':
+        steps.append([['add_eltorito', {'bootfile_path': '/B.;1', 'efi': True, 'platform_id': 0xef}]])
+    if mode in ('bios2', 'efibios2'):
+        steps.append([['add_eltorito', {'bootfile_path': '/Z.;1'}]])
     if mode in ('efi', 'efimac'):
         steps.append([['add_eltorito', {'bootfile_path': '/B.;1', 'efi': True, 'platform_id': 0xef}]])
     if mode == 'efimac':
         steps.append([['add_eltorito', {'bootfile_path': '/C.;1', 'efi': True, 'platform_id': 0xef}]])
     base = list(steps)
     h = dict(hyb or {})
-    if mode == 'efi':
+    if mode in ('efi', 'efibios2'):
         h.setdefault('efi', True)
     if mode == 'efimac':
         h.setdefault('mac', True)
@@ -86,7 +95,7 @@ def judge(cfg, steps, base, hyb, mode, sizes):
     sectors = hyb.get('geometry_sectors', 32)
     part_entry = hyb.get('part_entry', 1)
     part_offset = hyb.get('part_offset', 0)
-    efi = mode in ('efi', 'efimac')
+    efi = mode in ('efi', 'efimac', 'efibios2')
     mac = mode == 'efimac'
     want_type = hyb.get('part_type')
     if want_type is None:
@@ -221,7 +230,7 @@ def param_cases(tier):
                 yield {'kind': 'sizes', 'cfg': cfg, 'mode': mode, 'hyb': {}, 'sizes': list(sizes)}
     # histories that move the boot files before mastering, and consistency forced before/after add_isohybrid
     for cfg in (ops.mk(1), ops.mk(3, joliet=3, rr='1.09'), ops.mk(3, udf=True)):
-        for mode in ('plain', 'efi', 'efimac'):
+        for mode in ('plain', 'efi', 'efimac', 'bios2', 'efibios2'):
             for fc in (None, 'before', 'after'):
                 for pre in ((), (ops.add_dir(cfg, 'D1'),), tuple(ops.grow_dir_step(cfg, '/', n=12 if cfg['level'] > 1 else 48))):
                     for tail in ((), (ops.add_dir(cfg, 'E1', 'iso'),), (ops.add_fp(cfg, 'AB', '/', 'c2049'),)):
